@@ -19,6 +19,19 @@ class SimBudgetExceeded(BaseException):
     that terminates in time proportional to its input could need."""
 
 
+def same_or_chained(got: BaseException | None, injected: BaseException) -> bool:
+    """True when ``got`` is the injected exception or was raised while handling
+    it (wrapping a stream error in a library error is legitimate)."""
+    seen = 0
+    e = got
+    while e is not None and seen < 16:
+        if e is injected:
+            return True
+        e = e.__cause__ or e.__context__
+        seen += 1
+    return False
+
+
 def make_injected(kind: str, idx: int) -> BaseException:
     if kind == "reset":
         return ConnectionResetError(104, f"sim: connection reset by peer (call {idx})")
@@ -30,11 +43,17 @@ def make_injected(kind: str, idx: int) -> BaseException:
         return BrokenPipeError(32, f"sim: broken pipe (call {idx})")
     if kind == "nospace":
         return OSError(28, f"sim: no space left on device (call {idx})")
+    if kind == "cancelled":
+        import asyncio
+
+        return asyncio.CancelledError(f"sim: task cancelled inside stream call {idx}")
+    if kind == "keyboard":
+        return KeyboardInterrupt(f"sim: interrupted inside stream call {idx}")
     raise ValueError(kind)
 
 
-INJECT_KINDS_READ = ("reset", "timeout", "eio")
-INJECT_KINDS_WRITE = ("reset", "pipe", "eio", "nospace", "timeout")
+INJECT_KINDS_READ = ("reset", "timeout", "eio", "cancelled", "keyboard")
+INJECT_KINDS_WRITE = ("reset", "pipe", "eio", "nospace", "timeout", "cancelled", "keyboard")
 
 
 class SimSource:
